@@ -11,7 +11,7 @@ RULE = ('case = history over the global default configuration: set_default_confi
         'depth, max_seq_len, sort_dict_keys}) / get_default_config() / print(value, entry point, explicitly passed subset '
         'of {indent, width, ribbon_width, depth, max_seq_len, sort_dict_keys}, end string) with entry point in {pformat, '
         'pprint to a StringIO, pprint to a redirected sys.stdout, cpprint with colour off, cpprint with colour on (SGR '
-        'stripped), pretty_repr of a registered type, PrettyPrinter(**explicit).pformat, PrettyPrinter(**explicit).pprint, '
+        'stripped), a PrettyPrinter object constructed earlier in the history, pretty_repr of a registered type, PrettyPrinter(**explicit).pformat, PrettyPrinter(**explicit).pprint, '
         'pformat / pprint with indent, width, depth passed positionally, pretty_repr as the very first use of a fresh class whose '
         'printer is registered by name}. '
         'Exhaustive: every single setting explicit-vs-default x every entry point after each single-setting '
@@ -97,6 +97,7 @@ def enumerate_cases(tier):
 
 
 def fixed_cases():
+    yield {'ops': [['mkpp', {'width': 40}], ['set', {'max_seq_len': 2, 'depth': 1}], ['usepp', 0, ''], ['set', {'width': 5}], ['usepp', 1, ''], ['get']]}
     yield {'ops': [['print', 'PP.pformat', 0, {'width': 5}, '']]}       # D16
     yield {'ops': [['set', {'depth': 1, 'max_seq_len': 2}], ['print', 'pretty_repr', 1, {}, ''], ['set', {'depth': None}], ['get'],
                    ['print', 'cpprint_on', 1, {'indent': 2}, 'END']]}
@@ -108,6 +109,8 @@ def strategy(tier):
     def subset(keys):
         return st.fixed_dictionaries({}, optional={k: st.sampled_from(DOMAIN[k]) for k in keys})
     op = st.one_of(
+        subset(list(DOMAIN)).map(lambda d: ['mkpp', d]),
+        st.tuples(st.integers(0, len(VALUES) - 1), st.sampled_from(['\n', ''])).map(lambda p: ['usepp', p[0], p[1]]),
         subset(DEFAULTABLE).map(lambda d: ['set', d]),
         st.just(['get']),
         st.tuples(st.sampled_from(ENTRIES), st.integers(0, len(VALUES) - 1), subset(list(DOMAIN)),
@@ -164,9 +167,11 @@ def run_entry(entry, value, explicit, end):
     if entry == 'PP.pformat':
         return pp.PrettyPrinter(**explicit).pformat(value) + end
     if entry == 'PP.pprint':
+        # (only `stream` besides the settings: `end` is not a PrettyPrinter setting; pprint's default end is a newline)
         s = io.StringIO()
-        pp.PrettyPrinter(stream=s, end=end, **explicit).pprint(value)
-        return s.getvalue()
+        pp.PrettyPrinter(stream=s, **explicit).pprint(value)
+        out = s.getvalue()
+        return out[:-1] + end if out.endswith('\n') else out + '<missing default newline>'
     raise ValueError(entry)
 
 
@@ -177,6 +182,7 @@ def oracle(case):
     model = dict(stock)
     nontrivial = False
     changed = False
+    stored_pp = None
     labels = set()
     try:
         for op in case['ops']:
@@ -193,6 +199,28 @@ def oracle(case):
                     return core.viol('set_default_config-return', 'returned %r, model %r' % (dict(ret), model))
                 if dict(pp.get_default_config()) != model:
                     return core.viol('defaults-differ', 'after %r: %r, model %r' % (op, dict(pp.get_default_config()), model))
+            elif op[0] == 'mkpp':
+                # a printer object constructed now and used later: its explicit settings stick, everything else
+                # follows the defaults in force when it is USED
+                stored_pp = (pp.PrettyPrinter(**op[1]), dict(op[1]))
+            elif op[0] == 'usepp':
+                if stored_pp is None:
+                    continue
+                obj, explicit = stored_pp
+                value = values.build(VALUES[op[1]])
+                effective = dict(model)
+                effective.update(explicit)
+                try:
+                    ref = pp.pformat(value, **effective)
+                    got = obj.pformat(value)
+                except Exception as e:
+                    return core.viol('entry-point-raised', 'stored PrettyPrinter(%r) raised %r' % (explicit, e))
+                labels.add('stored-PrettyPrinter')
+                if got != ref:
+                    return core.viol('entry-points-disagree', 'PrettyPrinter(%r) constructed earlier, used under defaults %r gave\n%r\nreference\n%r' % (
+                        explicit, model, got[:500], ref[:500]))
+                if changed:
+                    nontrivial = True
             elif op[0] == 'get':
                 got = dict(pp.get_default_config())
                 if got != model:
